@@ -43,6 +43,9 @@ fn judge(out: &Result<RunOut, String>, samples: &[(u64, bool)]) -> Option<(Strin
 pub enum Hop {
   Append,
   AppendNested,
+  /// a child whose own unsubscribe() appends one more child to the composite
+  /// (what a finalizer / a completing inner does in the middle of a teardown)
+  AppendReentrant,
   Unsub,
   Clone,
   Sample,
@@ -62,6 +65,25 @@ impl Subscription for Tracked {
   }
 }
 
+/// child that appends `id + 500` to (its clone of) the composite while it is being unsubscribed
+struct Reentrant<M> {
+  id: u32,
+  log: Log,
+  comp: M,
+  add: fn(&mut M, Tracked),
+}
+impl<M> Subscription for Reentrant<M> {
+  fn unsubscribe(mut self) {
+    self.log.mark(self.id, "child_unsub", 0);
+    let late = Tracked { id: self.id + 500, log: self.log.clone() };
+    (self.add)(&mut self.comp, late);
+    self.log.mark(self.id, "reentrant_append_returned", 0);
+  }
+  fn is_closed(&self) -> bool {
+    false
+  }
+}
+
 macro_rules! composite_history {
   ($multi:ty, $boxed:ident, $h:expr) => {{
     let log = Log::new();
@@ -71,6 +93,7 @@ macro_rules! composite_history {
     let mut next_id = 10u32;
     let mut appended_before: Vec<u32> = vec![];
     let mut late_appends = 0usize;
+    let mut reentrant: Vec<u32> = vec![];
     for op in $h {
       match op {
         Hop::Append | Hop::AppendNested => {
@@ -100,11 +123,32 @@ macro_rules! composite_history {
             appended_before.push(id);
           }
         }
+        Hop::AppendReentrant => {
+          if unsubscribed.is_none() {
+            next_id += 1;
+            let id = next_id;
+            let comp = handles.last().unwrap().clone();
+            let child = Reentrant { id, log: log.clone(), comp, add: |m: &mut $multi, t: Tracked| m.append($boxed::new(t)) };
+            handles.last_mut().unwrap().append($boxed::new(child));
+            appended_before.push(id);
+            reentrant.push(id);
+          }
+        }
         Hop::Unsub => {
           if unsubscribed.is_none() && handles.len() > 1 {
             let h = handles.remove(0);
             h.unsubscribe();
             unsubscribed = Some(stamp());
+            // children appended in the middle of the teardown belong to a
+            // composite that reports closed from now on: they must not be left running
+            for id in &reentrant {
+              if log.marks(*id, "child_unsub").len() == 1 && log.marks(*id + 500, "child_unsub").len() != 1 {
+                problems.push((
+                  "append_during_teardown_left_running".into(),
+                  format!("child {} appended by child {}'s unsubscribe() while the composite was being torn down was unsubscribed {} times; the composite reports closed", id + 500, id, log.marks(*id + 500, "child_unsub").len()),
+                ));
+              }
+            }
             for id in &appended_before {
               if log.marks(*id, "child_unsub").len() != 1 {
                 problems.push(("child_not_unsubscribed_once".into(), format!("child {} unsubscribed {} times", id, log.marks(*id, "child_unsub").len())));
@@ -158,7 +202,8 @@ pub fn run(cfg: &Cfg, rep: &mut Report) {
     let n = 2 + r.below(cfg.n(7, 12));
     let h: Vec<Hop> = (0..n)
       .map(|_| match r.below(10) {
-        0..=2 => Hop::Append,
+        0 | 1 => Hop::Append,
+        2 => Hop::AppendReentrant,
         3 => Hop::AppendNested,
         4 | 5 => Hop::Clone,
         6 | 7 => Hop::Unsub,
@@ -173,6 +218,9 @@ pub fn run(cfg: &Cfg, rep: &mut Report) {
       Err(p) => rep.violation("panic", "composite", &id, json!({"history": format!("{:?}", h), "panic": p})),
       Ok((problems, events, late)) => {
         rep.events += events as u64;
+        if h.contains(&Hop::AppendReentrant) && h.contains(&Hop::Unsub) {
+          rep.count("histories_with_an_append_during_teardown", 1);
+        }
         if late > 0 {
           rep.count("appends_after_unsubscribe", late as u64);
           rep.nontrivial.insert(hash64(&(threads, &h)));
@@ -250,6 +298,66 @@ pub fn run(cfg: &Cfg, rep: &mut Report) {
     } else {
       rep.sample_some(7027, || json!({"case": id, "chain": pipe.chain.show(), "is_closed_samples": samples.iter().map(|(_, c)| *c).collect::<Vec<_>>()}));
     }
+  }
+
+  // (d) MultiSubscriptionThreads: unsubscribe() on one thread racing with
+  // append() on another (and is_closed() on a third), scheduled at the hooked lock points
+  {
+    let n = cfg.n(6_000, 400_000);
+    let mut rng = Rng::new(cfg.seed ^ 0xC17D);
+    let mut abandoned = 0;
+    for i in 0..n {
+      let mut r = rng.fork();
+      if !cfg.mine(i) {
+        continue;
+      }
+      let id = format!("race:{}", i);
+      if !cfg.wants(&id) || abandoned >= 20 {
+        continue;
+      }
+      rep.evaluations += 1;
+      rep.count("composite_thread_races", 1);
+      let strategy = super::thr::strategy_for(&mut r);
+      let (problem, out) = composite_race(r.below(3), 1 + r.below(3), r.next(), strategy.clone());
+      rep.events += out.points;
+      rep.distinct("distinct_composite_race_schedules", hash64(&out.trace));
+      if out.switches > 0 {
+        rep.nontrivial.insert(hash64(&("race", &out.trace)));
+      }
+      if out.timed_out || out.livelock {
+        abandoned += 1;
+        rep.inconclusive.push(format!("{}: schedule abandoned", id));
+        continue;
+      }
+      if let Some(d) = &out.deadlock {
+        rep.violation("deadlock", "MultiSubscriptionThreads[unsubscribe || append]", &id, json!({"waits": format!("{:?}", d)}));
+      } else if let Some((kind, why)) = problem {
+        rep.violation(&kind, "MultiSubscriptionThreads[unsubscribe || append]", &id, json!({"why": why, "strategy": format!("{:?}", strategy), "schedule": out.trace.iter().map(|t| t.to_string()).collect::<String>()}));
+      }
+    }
+  }
+
+  // (e) task handles under real concurrency: unsubscribe() racing with the
+  // worker that runs the scheduled task (observe_on / delay / subscribe_on with
+  // managed workers). After unsubscribe() returned every remaining handle
+  // reports closed, hence nothing may begin on the probe any more.
+  {
+    let n = cfg.n(6_000, 300_000);
+    let fams = [12usize, 13, 18];
+    let prep = |s: &mut super::thr::Scen, r: &mut Rng| {
+      if !s.threads.iter().flatten().any(|op| matches!(op, super::thr::TOp::Unsub(0))) {
+        let t = r.below(s.threads.len());
+        let p = r.below(s.threads[t].len() + 1);
+        s.threads[t].insert(p, super::thr::TOp::Unsub(0));
+      }
+    };
+    super::thr::systematic_families(cfg, rep, 0xC17A, &fams, &prep, &|o, _| super::thr::after_unsub(o));
+    super::thr::campaign(cfg, rep, "thr", n, 0xC17F, &mut |r: &mut Rng| {
+      let f = fams[r.below(3)];
+      let mut s = super::thr::random_scen(r, f);
+      prep(&mut s, r);
+      s
+    }, &|o, _| super::thr::after_unsub(o));
   }
 
   // (c) the small subscription types, driven directly
@@ -359,4 +467,80 @@ fn direct_battery(rep: &mut Report) {
     }
     rep.events += log.len() as u64;
   }
+}
+
+/// `pre` children appended up front; thread 0 unsubscribes the composite,
+/// thread 1 appends `late` more children, thread 2 samples is_closed().
+/// At the end the composite reports closed, so every child must have been
+/// unsubscribed exactly once, and is_closed() never went back to false.
+pub fn composite_race(pre: usize, late: usize, seed: u64, strategy: crate::conc::Strategy) -> (Option<(String, String)>, crate::conc::BatonOutcome) {
+  use std::sync::{Arc, Mutex};
+  let log = Log::new();
+  let mut comp = MultiSubscriptionThreads::default();
+  let mut ids = vec![];
+  for k in 0..pre {
+    let id = 11 + k as u32;
+    comp.append(BoxSubscriptionThreads::new(Tracked { id, log: log.clone() }));
+    ids.push(id);
+  }
+  for k in 0..late {
+    ids.push(21 + k as u32);
+  }
+  let samples: Arc<Mutex<Vec<bool>>> = Default::default();
+  let mut bodies: Vec<Box<dyn FnOnce() + Send>> = vec![];
+  {
+    let c = comp.clone();
+    bodies.push(Box::new(move || c.unsubscribe()));
+  }
+  {
+    let (mut c, log) = (comp.clone(), log.clone());
+    bodies.push(Box::new(move || {
+      for k in 0..late {
+        c.append(BoxSubscriptionThreads::new(Tracked { id: 21 + k as u32, log: log.clone() }));
+      }
+    }));
+  }
+  {
+    let (c, samples) = (comp.clone(), samples.clone());
+    bodies.push(Box::new(move || {
+      for _ in 0..3 {
+        let v = c.is_closed();
+        samples.lock().unwrap_or_else(|e| e.into_inner()).push(v);
+      }
+    }));
+  }
+  let out = crate::conc::baton_run(seed, strategy, bodies);
+  if out.deadlock.is_some() || out.timed_out || out.livelock {
+    std::mem::forget(comp);
+    return (None, out);
+  }
+  let mut problem = None;
+  if let Some((t, p)) = out.panics.first() {
+    problem = Some(("panic".to_string(), format!("thread {} panicked: {}", t, p)));
+  }
+  if problem.is_none() && !comp.is_closed() {
+    problem = Some(("handle_open_after_unsubscribe".into(), "unsubscribe() returned on one clone; another clone still reports open".into()));
+  }
+  if problem.is_none() {
+    for id in &ids {
+      let n = log.marks(*id, "child_unsub").len();
+      if n != 1 {
+        problem = Some((
+          "child_left_running_in_closed_composite".into(),
+          format!("child {} was unsubscribed {} times although unsubscribe() and every append() have returned and the composite reports closed", id, n),
+        ));
+        break;
+      }
+    }
+  }
+  // a live composite without children reports closed (vacuously: nothing can be
+  // delivered through it) until its first child is appended; monotonicity is
+  // demanded from the moment it holds an open child, i.e. when pre >= 1
+  if problem.is_none() && pre >= 1 {
+    let s = samples.lock().unwrap_or_else(|e| e.into_inner()).clone();
+    if s.windows(2).any(|w| w[0] && !w[1]) {
+      problem = Some(("is_closed_went_back_to_false".into(), format!("is_closed() samples {:?}", s)));
+    }
+  }
+  (problem, out)
 }
